@@ -20,6 +20,7 @@ import (
 // Outcome is what one simulated run reports.
 type Outcome struct {
 	Sig      string      // "" = property held; otherwise the structured violation signature
+	Symptom  string      // optional: what shrinking must preserve (default: Sig); lets the scenario-shape part of Sig simplify while shrinking
 	Detail   string      // human-readable description of what went wrong
 	Scenario interface{} // the workload of this run, written out
 	Trace    []string    // event trace (tail)
@@ -72,6 +73,7 @@ type Violation struct {
 	Trace     []string    `json:"trace"`
 	ShrinkRuns int        `json:"shrink_runs"`
 	Count     int         `json:"count"` // how many runs hit this signature
+	symptom   string
 }
 
 type Result struct {
@@ -231,16 +233,28 @@ func RunRange(cfg *Config, fn RunFn, from, to, maxShrink int, wall time.Duration
 			}
 			dec := t.Decisions()
 			v := &Violation{Property: cfg.Property, Signature: o.Sig, Detail: o.Detail, Seed: cfg.Seed, Run: i,
-				Params: cfg.Params, Decisions: dec, OrigLen: len(dec), Scenario: o.Scenario, Trace: tail(o.Trace, 120), Count: 1}
+				Params: cfg.Params, Decisions: dec, OrigLen: len(dec), Scenario: o.Scenario, Trace: tail(o.Trace, 120), Count: 1, symptom: symptomOf(o)}
 			if maxShrink > 0 {
 				shrinkViolation(v, fn, cfg, maxShrink)
 			}
 			bySig[o.Sig] = v
+			if old, ok := bySig[v.Signature]; ok && old != v {
+				old.Count++
+			} else {
+				bySig[v.Signature] = v
+				if v.Signature != o.Sig {
+					sigOrder = append(sigOrder, v.Signature)
+				}
+			}
 			sigOrder = append(sigOrder, o.Sig)
 		}
 	}
+	emitted := map[*Violation]bool{}
 	for _, s := range sigOrder {
-		res.Violations = append(res.Violations, bySig[s])
+		if v := bySig[s]; v != nil && !emitted[v] && v.Signature == s {
+			emitted[v] = true
+			res.Violations = append(res.Violations, v)
+		}
 	}
 	res.KeyCount = len(keys)
 	for k := range keys {
@@ -249,6 +263,13 @@ func RunRange(cfg *Config, fn RunFn, from, to, maxShrink int, wall time.Duration
 	sort.Strings(res.Keys)
 	res.WallS = time.Since(start).Seconds()
 	return res
+}
+
+func symptomOf(o *Outcome) string {
+	if o.Symptom != "" {
+		return o.Symptom
+	}
+	return o.Sig
 }
 
 func tail(s []string, n int) []string {
@@ -268,7 +289,7 @@ func shrinkViolation(v *Violation, fn RunFn, cfg *Config, budget int) {
 		runs++
 		t := zsim.ReplayTape(dec)
 		o := fn(t, cfg)
-		if o.Sig == v.Signature {
+		if o.Sig != "" && symptomOf(o) == v.symptom {
 			best = o
 			return t.Decisions(), true
 		}
@@ -277,6 +298,7 @@ func shrinkViolation(v *Violation, fn RunFn, cfg *Config, budget int) {
 	v.Decisions = Shrink(v.Decisions, test)
 	v.ShrinkRuns = runs
 	if best != nil {
+		v.Signature = best.Sig
 		v.Detail = best.Detail
 		v.Scenario = best.Scenario
 		v.Trace = tail(best.Trace, 120)
